@@ -569,11 +569,14 @@ func chainCase(run *sim.Run, caseID int) {
 			}
 		case x < 74: // authority: oracle sampling_try_count
 			p := w.App.OracleKeeper.GetParams(w.Ctx())
-			nt := sim.Pick(rng, []int{1, 3, 10})
+			nt := sim.Pick(rng, []int{1, 3, 10, 0}) // 0 tries cannot yield a committee: if the chain takes it, the committees that follow are judged as they come
 			p.SamplingTryCount = uint64(nt)
 			h.log("authority: oracle sampling_try_count=%d", nt)
 			if _, err := w.Authority(oracletypes.NewMsgUpdateParams(sim.GovAddr().String(), p)); err != nil {
 				h.log("authority refused: %v", err)
+				if nt == 0 {
+					run.Count("chain:sampling-try-count-0-refused", 1)
+				}
 			} else {
 				h.tries = nt
 				run.Count("chain:sampling-try-count-changes", 1)
